@@ -508,6 +508,45 @@ nat_pipeline.shards = 6
 nat_whole_resource_steps.shards = 4
 
 
+def sym_add_field(vc):
+    """add_field(name, type, default, resources=R, **options) is add_computed_field with the SAME selector R -- whatever it is: 0
+    and [] are selectors, not "no selector" --, the target {name, type, **options}, and as operation the default itself when it is
+    callable, else a function returning it"""
+    from pyvc.api import real_function, check, cover, UFunc, Opaque, PyList, PyDict, sym_str, sym_int, ufunc, sym_row
+    fk = vc.under_contract(P + 'add_field.py', ['add_field'])
+    for kind in ('zero', 'none', 'empty-list', 'name', 'index', 'list', 'callable-default'):
+        def thunk(it, kind=kind):
+            m = it.module('dataflows.processors.add_field')
+            got = {}
+
+            def acf(it_, a, k):
+                got['a'], got['k'] = a, k
+                return Opaque('step', 'computed_field_step')
+            m.attrs['add_computed_field'] = UFunc('add_computed_field', acf, False)
+            sel = {'zero': 0, 'none': None, 'empty-list': PyList([]), 'name': sym_str(it, 'res'), 'index': sym_int(it, 'idx'),
+                   'list': PyList([sym_str(it, 'r1'), sym_str(it, 'r2')]), 'callable-default': -1}[kind]
+            default = ufunc('default_fn') if kind == 'callable-default' else sym_str(it, 'default')
+            name = sym_str(it, 'fname')
+            step = it.call(m.attrs['add_field'], [name, 'string', default], dict(resources=sel, title='T'))
+            k = got.get('k', {})
+            check(it, 'the-selector-is-handed-on-as-given[%s]' % kind, 'resources' in k and (k['resources'] is sel if not isinstance(sel, int)
+                  else (isinstance(k['resources'], int) and not isinstance(k['resources'], bool) and k['resources'] == sel)))
+            t = k.get('target')
+            check(it, 'target-is-name-type-and-the-options[%s]' % kind, isinstance(t, PyDict) and t.d.get('name') is name and
+                  t.d.get('type') == 'string' and t.d.get('title') == 'T' and set(t.d) == {'name', 'type', 'title'})
+            op = k.get('operation')
+            if kind == 'callable-default':
+                check(it, 'a-callable-default-is-the-operation[%s]' % kind, op is default)
+            else:
+                r = it.call(op, [sym_row(it, 'row')]) if op is not None else None
+                check(it, 'a-constant-default-is-what-the-operation-returns[%s]' % kind, r is default)
+            # (nothing of its own is wrapped around it: what add_field does to a package is what that step does)
+            check(it, 'the-step-returned-is-the-computed-field-step[%s]' % kind, isinstance(step, Opaque) and step.name == 'computed_field_step'
+                  and not got.get('a'))
+            cover(it, 'reachable[%s]' % kind)
+        vc.explore(fk, thunk)
+
+
 def _items():
     items = [_mk_matcher_item()]
 
@@ -566,6 +605,7 @@ def _items():
             dict(resources=sel)
     items.append(_closure_item('unpivot.func', 'unpivot.py', 'unpivot', 'func', 'dataflows.processors.unpivot',
                                unp_args, gen_of({'unpivot_rows'}), 'func#L4', pkg_loop='func#L0'))
+    items.append(Item('add_field', sym_add_field, [], P + 'add_field.py::add_field'))
     items.append(Item('update-props-not-shared', sym_update_props_not_shared, [], P + 'update_schema.py::update_schema.func'))
     items.append(Item('delete_resource.func', sym_delete_resource, [], P + 'delete_resource.py::delete_resource.func'))
     items.append(Item('validate', sym_validate, [], P + 'validate.py::validate.process_resource'))
